@@ -27,6 +27,12 @@ def scenarios(tier, seed):
         "removeold": [{"op": "SetAge", "r": "r1", "age": 30}, {"op": "RemoveOld", "d": "d1", "days": 7}],
         "removeall": [{"op": "RemoveAll", "d": "d1"}],
     }
+    # a long history: 13 earlier runs of the same DAG (stamps 10..22), the crashing run is started after them (stamp 23)
+    P14 = []
+    for k in range(13):
+        P14 += run_ops("d1", "q%d" % (k + 1), 10 + k, 1)
+    crash_parts_long = {"run": run_ops("d1", "r9", 23), "run-long": run_ops("d1", "r9", 23, 4),
+                        "update": [{"op": "Update", "d": "d1", "r": "q13", "st": "q13.2"}]}
     priors = {"none": [], "one": P1, "three": P2}
     out = []
     name_sets = ["plain"] if tier == "quick" else ["plain", "spaces", "glob", "suffix", "stamped"]
@@ -49,6 +55,11 @@ def scenarios(tier, seed):
                     else:
                         ops += part
                     out.append({"scen": sid, "names": names, "todayOnly": today, "label": "%s/%s" % (pn, cn), "nprior": nprior, "ops": ops})
+    for names in name_sets[:1]:
+        for cn, part in crash_parts_long.items():
+            for today in [False, True]:
+                sid += 1
+                out.append({"scen": sid, "names": names, "todayOnly": today, "label": "many/%s" % cn, "nprior": len(P14), "ops": list(P14) + part})
     return out
 
 
